@@ -27,6 +27,11 @@ CHECKS = {
             "Constraints hold and satisfiability is unchanged under solve_order (free draws, pinned probes), pinning the earlier variable to each feasible value succeeds, the earlier variable is uniform over its feasible values when these fill its inferred range, also for a variant with different companion counts; the same system without the directive is drawn as a control to show the test has power.",
             "Uniformity only under the stated precondition (hook shows single-interval range = feasible set); alpha 1e-9 split over 2000 tests.",
             "5/C20"),
+    "C04": ("exploration",
+            "Hypothesis-generated list programs and edit/call histories; reference solution set enumerated over sizes 0..4 x element values; access-path agreement checks",
+            "Fixed-size, random-size and non-random scalar lists with size bounds, foreach by item/index/both/nested, guarded index arithmetic, sum, unique, unique_vec, membership and constant subscripts; histories interleave calls with append/extend/clear/assign/setitem. After every successful call (size, elements) must lie in the enumerated set, len()/size/indexing/iteration must agree, fixed lists keep their length, and edits must act on exactly the exposed list.",
+            "Random-size lists whose elements are constrained are a recorded finding (the library solves over the grown list); histories stop after a failed call on a random-size list.",
+            "5/C04"),
     "C05": ("exploration",
             "Hypothesis-generated hard+soft programs; exact greedy-by-priority reference and result-only maximality over the enumerated solution space",
             "Small-domain programs mixing hard and soft statements (nested under if/else/implies, two class blocks, inline softs, call sequences). The hard solution set is enumerated; the result must be in it, must be maximal w.r.t. the soft terms, and must lie in the greedy set for an order consistent with the stated partial priority order; hard-satisfiable systems must never fail.",
